@@ -657,3 +657,28 @@ theorem c05_binrw_EXDHeader (l : Bytes) :
   BinrwTie.Excel.pExdHead_eq_generated l
 
 end Physis.C05
+
+/-! ### T4 (continued): `ExcelColumnDefinition` and the `Language` elements -/
+namespace Physis.C05
+open Physis.Binrw Physis.Generated
+
+/-- `ExcelColumnDefinition`: `ColumnDataType` (`repr(u16)`, the regenerated discriminant list = the
+codes of the model's `ColumnDataType`, `BinrwTie.Excel.column_valid`) and the u16 offset -/
+theorem c05_binrw_ExcelColumnDefinition (l : Bytes) :
+    Exh.pColumn l = via BinrwTie.Excel.columnOf (Layout.read .little BinrwExcel.excelColumnDefinition l) :=
+  BinrwTie.Excel.pColumn_eq_generated l
+
+theorem c05_binrw_ExcelColumnDefinition_vec (n : Nat) (l : Bytes) :
+    ParserBE.count Exh.pColumn n l =
+      (repeatN (Kind.read .little [] (.struct BinrwExcel.excelColumnDefinition)) n l).bind fun vs =>
+        (projAll BinrwTie.Excel.columnOfV vs.1).map (·, vs.2) :=
+  BinrwTie.Excel.countColumn_eq_generated n l
+
+/-- `Vec<Language>` with `count = n`: each element is the regenerated `repr(u8)` enum `Language` -/
+theorem c05_binrw_Language_vec (n : Nat) (l : Bytes) :
+    ParserBE.count Exh.pLanguage n l =
+      (repeatN (Kind.read .big [] (.enum BinrwExcel.languageRepr BinrwExcel.languageValid)) n l).bind fun vs =>
+        (projAll BinrwTie.Excel.languageOfV vs.1).map (·, vs.2) :=
+  BinrwTie.Excel.countLanguage_eq_generated n l
+
+end Physis.C05
